@@ -2,6 +2,7 @@ package kit
 
 import (
 	"bytes"
+	"context"
 	"encoding/json"
 	"fmt"
 	"sort"
@@ -13,6 +14,7 @@ import (
 	"cosmossdk.io/log/v2"
 	sdkmath "cosmossdk.io/math"
 
+	"github.com/cosmos/cosmos-sdk/baseapp"
 	storetypes "github.com/cosmos/cosmos-sdk/store/v2/types"
 	simtestutil "github.com/cosmos/cosmos-sdk/testutil/sims"
 	sdk "github.com/cosmos/cosmos-sdk/types"
@@ -42,6 +44,7 @@ type Chain struct {
 	Idx  int
 	Rec  *Recorder
 	Name string
+	ABCI *ABCIRecord
 
 	// stores watched by Diff; noise = keys that change in empty blocks
 	Watch []string
@@ -70,14 +73,67 @@ func zeroInflationGenesis(app *simapp.SimApp, gen map[string]json.RawMessage) {
 // DefaultWatch is the set of stores in which "no state change" is judged.
 var DefaultWatch = []string{"ibc", "transfer", "ratelimit", "packetforward", "icacontroller", "icahost", "gmp", "bank", "authz", "upgrade"}
 
+// WorldOpts tunes world creation.
+type WorldOpts struct {
+	// RecordABCI records the InitChain request and every FinalizeBlock request/response of every chain (Chain.ABCI)
+	RecordABCI bool
+}
+
+// ABCIRecord is the exact block history of one chain, enough to replay it on a fresh application.
+type ABCIRecord struct {
+	Init    *abci.RequestInitChain
+	Blocks  []abci.RequestFinalizeBlock
+	AppHash [][]byte // app hash reported by FinalizeBlock for each block
+}
+
+type abciListener struct{ rec *ABCIRecord }
+
+func (l abciListener) ListenFinalizeBlock(_ context.Context, req abci.RequestFinalizeBlock, res abci.ResponseFinalizeBlock) error {
+	l.rec.Blocks = append(l.rec.Blocks, req)
+	l.rec.AppHash = append(l.rec.AppHash, bytes.Clone(res.AppHash))
+	return nil
+}
+
+func (l abciListener) ListenCommit(context.Context, abci.ResponseCommit, []*storetypes.StoreKVPair) error {
+	return nil
+}
+
+// initRecorder wraps the application only to capture the InitChain request.
+type initRecorder struct {
+	*simapp.SimApp
+	rec *ABCIRecord
+}
+
+func (r *initRecorder) InitChain(req *abci.RequestInitChain) (*abci.ResponseInitChain, error) {
+	cp := *req
+	r.rec.Init = &cp
+	return r.SimApp.InitChain(req)
+}
+
 // NewWorld creates n chains (chain ids testchain1-1 …) with zero inflation.
-func NewWorld(t *testing.T, n int) *World {
+func NewWorld(t *testing.T, n int) *World { return NewWorldOpts(t, n, WorldOpts{}) }
+
+func NewWorldOpts(t *testing.T, n int, opts WorldOpts) *World {
 	t.Helper()
+	var apps []*simapp.SimApp
+	var recs []*ABCIRecord
 	creator := func() (ibctesting.TestingApp, map[string]json.RawMessage) {
 		db := dbm.NewMemDB()
-		app := simapp.NewSimApp(log.NewNopLogger(), db, nil, true, simtestutil.EmptyAppOptions{})
+		rec := &ABCIRecord{}
+		var bopts []func(*baseapp.BaseApp)
+		if opts.RecordABCI {
+			bopts = append(bopts, func(b *baseapp.BaseApp) {
+				b.SetStreamingManager(storetypes.StreamingManager{ABCIListeners: []storetypes.ABCIListener{abciListener{rec}}, StopNodeOnErr: true})
+			})
+		}
+		app := simapp.NewSimApp(log.NewNopLogger(), db, nil, true, simtestutil.EmptyAppOptions{}, bopts...)
 		gen := app.DefaultGenesis()
 		zeroInflationGenesis(app, gen)
+		apps = append(apps, app)
+		recs = append(recs, rec)
+		if opts.RecordABCI {
+			return &initRecorder{SimApp: app, rec: rec}, gen
+		}
 		return app, gen
 	}
 	coord := ibctesting.NewCustomAppCoordinator(t, n, creator)
@@ -85,7 +141,8 @@ func NewWorld(t *testing.T, n int) *World {
 	for i := 1; i <= n; i++ {
 		tc := coord.GetChain(ibctesting.GetChainID(i))
 		c := &Chain{TestChain: tc, W: w, Idx: i - 1, Name: string(rune('A' + i - 1)), Watch: DefaultWatch}
-		c.Sim = tc.App.(*simapp.SimApp)
+		c.Sim = apps[i-1]
+		c.ABCI = recs[i-1]
 		// helper assertions inside the testing library must not kill the binary
 		tc.TB = PanicTB{t}
 		c.Rec = installRecorder(c)
@@ -112,7 +169,9 @@ func (c *Chain) DefaultSender() ibctesting.SenderAccount {
 }
 
 // Acct returns the i-th funded account.
-func (c *Chain) Acct(i int) ibctesting.SenderAccount { return c.SenderAccounts[i%len(c.SenderAccounts)] }
+func (c *Chain) Acct(i int) ibctesting.SenderAccount {
+	return c.SenderAccounts[i%len(c.SenderAccounts)]
+}
 
 func (c *Chain) Addr(i int) sdk.AccAddress { return c.Acct(i).SenderAccount.GetAddress() }
 
@@ -234,10 +293,10 @@ type Outcome struct {
 	// BlockTime is the header time of the block that carried the tx
 	BlockTime time.Time
 	Msgs      []sdk.Msg
-	Res    *abci.ExecTxResult
-	Err    error
-	Code   uint32
-	Log    string
+	Res       *abci.ExecTxResult
+	Err       error
+	Code      uint32
+	Log       string
 	// Diff = state change of the block that carried the tx, in the watched stores, noise removed,
 	// and without the signer's own account bookkeeping (auth store is not watched).
 	Diff []KV
